@@ -27,6 +27,17 @@
 (* on the doubles; 0 equal, +-1 within 4 ulp, +-2 beyond), and the         *)
 (* specification evaluates its clauses on these codes.  Assumption         *)
 (* UnitCube is MONITORED on what the wrapper returned.                     *)
+(*                                                                         *)
+(* The design space of a scenario is logged as it was FIRST BUILT (raw:    *)
+(* components with their variable names, in the order of add_variable) or  *)
+(* as the dimension handed to compute_doe (asint), together with the       *)
+(* DesignSpace operations applied before the DOE ran (prep); the           *)
+(* specification computes the design-space order from them.  Every call    *)
+(* logs the user-provided structure as it was passed (ux: input form and   *)
+(* literal content of a user-supplied design with the keys in the user's   *)
+(* order, `reverse` strings, levels / centres per direction, initial       *)
+(* point); the specification gives it its meaning (AuxOf) and states the   *)
+(* result against it: clauses VariableOrder, Structure, CountRule.         *)
 (***************************************************************************)
 EXTENDS DOEPipeline, Json, IOUtils, TLCExt
 
@@ -35,13 +46,16 @@ VARIABLES tid, l, fails
 tvars == <<vars, tid, l, fails>>
 T == Traces[tid]
 Ev == T.events[l]
+LayoutOf(space) == [m \in 1..Len(VarSeq(space)) |-> <<VarSeq(space)[m], Len(Idx(space, VarSeq(space)[m]))>>]
+SameSpace(a, b) == Len(a) = Len(b) /\ \A k \in 1..Len(a) : a[k].var = b[k].var /\ a[k].lb = b[k].lb /\ a[k].ub = b[k].ub /\ a[k].int = b[k].int
+TSpace(t) == IF t.asint > 0 THEN UnitSpace(t.asint) ELSE PrepAll(t.raw, t.prep)
 
 TInit == /\ tid \in 1..Len(Traces)
          /\ l = 1
          /\ fails = {}
          /\ dflt = [i \in Insts |-> 0]
          /\ flag = T.flag0
-         /\ sp = T.space
+         /\ sp = TSpace(T)
          /\ pc = "idle"
          /\ cur = NoCall
          /\ memo = <<>>
@@ -52,16 +66,21 @@ Q(name, obs) == IF cur.fam \in QFams \/ cur.fam = "atmost" THEN name ELSE obs
 
 \* ---------------------------------------------------------------- call
 CallClauses(e) == {
-  <<"KnownFamily", e.fam \in AllFams /\ e.inst \in Insts>>,
+  <<"KnownFamily", e.fam \in AllFams /\ e.inst \in Insts /\ WellFormed(sp)>>,
+  \* (machinery) the harness only passes well-formed user structure
+  <<"HarnessInput", e.fam \in AllFams => AuxValid(sp, e.fam, e.p, AuxOf(sp, e.fam, e.ux))>>,
+  \* the real design space lists its variables (names, sizes) in the order the specification computes
+  <<"SpaceLayout", e.layout # <<>> => e.layout = LayoutOf(sp)>>,
+  <<"HarnessSpace", SameSpace(T.final, sp)>>,
   <<"PreFlag", e.flag = flag>>,
   <<"PreSeed", e.inst \in Insts => e.dflt = dflt[e.inst]>> }
 CallConform(e) ==
   IF e.api = "execute" /\ ExecRefuses(e.fam, e.n, Dim, e.p)
-  THEN Refuse(e.inst, e.api, e.fam, e.n, e.p, e.seeded, e.seed)
-  ELSE Begin(e.inst, e.api, e.fam, e.n, e.p, e.seeded, e.seed, e.inj)
+  THEN Refuse(e.inst, e.api, e.fam, e.n, e.p, e.seeded, e.seed, e.ux)
+  ELSE Begin(e.inst, e.api, e.fam, e.n, e.p, e.seeded, e.seed, e.inj, e.ux)
 CallResync(e) ==
   /\ dflt' = [dflt EXCEPT ![e.inst] = e.dflt]
-  /\ cur' = [NewCall(e.inst, e.api, e.fam, e.n, e.p, e.seeded, e.seed, e.inj) EXCEPT !.saved = e.flag, !.d0 = e.dflt]
+  /\ cur' = [NewCall(e.inst, e.api, e.fam, e.n, e.p, e.seeded, e.seed, e.inj, e.ux) EXCEPT !.saved = e.flag, !.d0 = e.dflt]
   /\ flag' = TRUE
   /\ pc' = "begun"
   /\ ncalls' = ncalls + 1
@@ -77,13 +96,14 @@ UnitCubeLogged(e) == IF e.ugrid THEN UnitCube(e.u) ELSE (e.ulo >= 0 /\ e.uhi <= 
 SampleKey(e) == Key([cur EXCEPT !.calls = e.calls, !.used = e.used])
 SampleClauses(e) == SeedClauses(e) \cup {
   <<"Protocol", pc = "begun">>,
+  <<"SpaceLayout", e.layout = LayoutOf(sp)>>,      \* the space handed to the sampler
   \* the implementation returned samples although the specification rejects (n, d) or the settings
   <<"RejectRule", SettingsValid(cur.fam, cur.n, cur.p) /\ Accepts(cur.fam, cur.n, Dim, cur.p) /\ ~cur.inj>>,
-  <<"CountRule", CountOK(cur.fam, cur.n, Dim, cur.p, e.cnt)>>,
+  <<"CountRule", CountOKC(cur, Dim, e.cnt)>>,
   <<Q("AtMostRequested", "AtMostRequestedObs"), cur.fam \in NFams => e.cnt <= cur.n>>,
   <<"UnitShape", e.ugrid => Shape(e.u, e.cnt, Dim)>>,
   <<Q("UnitCube", "UnitCubeObs"), UnitCubeLogged(e)>>,
-  <<"Structure", e.ugrid /\ Shape(e.u, e.cnt, Dim) /\ e.cnt >= 1 => StructureOK(cur.fam, cur.n, Dim, cur.p, e.u)>>,
+  <<"Structure", e.ugrid /\ Shape(e.u, e.cnt, Dim) /\ e.cnt >= 1 => StructureOKC(sp, cur, e.u)>>,
   <<"Deterministic", SampleKey(e) \in DOMAIN memo => memo[SampleKey(e)].u = e.uid>> }
 SampleConform(e) == Sample(e.calls, e.cnt, IF e.ugrid THEN e.u ELSE <<>>, e.uid, ~e.ugrid)
 SampleResync(e) ==
@@ -136,6 +156,10 @@ EndOkClauses(e) == {
                 /\ (e.xgrid /\ Shape(e.x, e.count, Dim) =>
                       \A r \in 1..Len(e.x) : \A k \in 1..Dim : IntegralCell(sp[k], e.x[r][k]))>>,
   <<"Deterministic", Key(cur) \in DOMAIN memo => memo[Key(cur)].x = e.sid>>,
+  \* a user-supplied design: the values given for (sample, variable NAME) are found at the index range of
+  \* that variable in the design-space order (given values are on the grid, so the samples must be)
+  <<"VariableOrder", cur.fam = "custom" /\ AuxValid(sp, cur.fam, cur.p, cur.aux) =>
+                        e.xgrid /\ VariableOrderOf(sp, cur.aux.tab, e.x)>>,
   <<"IntNormRestored", e.flag = cur.saved>>,
   <<"SeederState", e.dflt = cur.d0 + cur.calls>>,
   <<"DbOrder", cur.api = "execute" => e.keys = Dedup(e.rowids)>> }
